@@ -417,3 +417,21 @@ def judge(doc, impl_line):
             cls = "value" if got.startswith("ok ") else ("relaxed-rejects" if (o & 1) else "rejects")
             return (cls, "options=%d: expected %s, implementation says %s" % (o, exp[o][:200], got[:200]))
     return None
+
+
+def judge_seq(docs, impl_line):
+    """several documents parsed one after the other on one context (op `s`): every json_parse call
+    stands for itself, so each document is judged like a single one.  Returns None or
+    (class, message) with the index of the offending document in the message."""
+    groups = impl_line.split(" | ")
+    if len(groups) != 4:
+        return ("shape", "unexpected output shape: " + impl_line[:200])
+    parts = [g.split(" ; ") for g in groups]
+    if any(len(p) != len(docs) for p in parts):
+        return ("shape", "unexpected output shape: " + impl_line[:200])
+    for i, d in enumerate(docs):
+        j = judge(d, " | ".join(parts[o][i] for o in range(4)))
+        if j is not None:
+            return ("reuse:" + j[0] if i > 0 else j[0],
+                    "document #%d of %d on one context (%r): %s" % (i + 1, len(docs), bytes(d)[:60], j[1]))
+    return None
